@@ -62,7 +62,8 @@ Proof.
 Qed.
 
 (* an acquire_on_behalf_of() entered in an already effectively cancelled scope touches nothing - whatever the state of
-   the limiter (tokens free or not, the borrower already holding, already queued) - and ends with the cancellation;
+   the limiter (tokens free or not, the borrower already holding, already queued) - and, when the delivery comes next
+   (SpinCancel), ends with the cancellation;
    neither does anything the spinning task's environment does TO THAT TASK (native cancel, its own spinning steps) *)
 Theorem entry_cancelled_noeffect s t b : spin s t = None -> phase_of (lim s) t = Idle ->
   let s1 := fst (estep false s (EnterCancelled t b)) in
